@@ -28,9 +28,14 @@ type gzipResponseWriter struct {
 	contentTypes []string
 
 	buf            bytes.Buffer
-	bufferExceeded bool // Track if we exceeded max buffer size
+	bufferExceeded bool // Track if we exceeded max buffer size (or gave up buffering)
+	committed      bool // the header has been sent to the underlying writer
+	hijacked       bool
 }
 
+// WriteHeader records the status code. The header is sent later, once it is known
+// whether the body will be compressed: Content-Encoding and Content-Length must be
+// decided before the header goes out.
 func (g *gzipResponseWriter) WriteHeader(code int) {
 	if g.wroteHeader {
 		return
@@ -38,28 +43,54 @@ func (g *gzipResponseWriter) WriteHeader(code int) {
 
 	g.statusCode = code
 	g.wroteHeader = true
-	g.ResponseWriter.WriteHeader(code)
+}
+
+// commit sends the recorded header to the underlying writer
+func (g *gzipResponseWriter) commit() {
+	if g.committed {
+		return
+	}
+	g.committed = true
+	if !g.wroteHeader {
+		g.statusCode = http.StatusOK
+		g.wroteHeader = true
+	}
+	g.ResponseWriter.WriteHeader(g.statusCode)
+}
+
+// passThrough gives up buffering: the header and whatever is buffered go out
+// uncompressed and later writes are streamed directly
+func (g *gzipResponseWriter) passThrough() {
+	if g.bufferExceeded {
+		return
+	}
+	g.bufferExceeded = true
+	g.commit()
+	// Flush existing buffer uncompressed
+	if g.buf.Len() > 0 {
+		_, _ = g.ResponseWriter.Write(g.buf.Bytes())
+		g.buf.Reset()
+	}
 }
 
 func (g *gzipResponseWriter) Write(b []byte) (int, error) {
+	if g.bufferExceeded {
+		// Stream directly without compression
+		return g.ResponseWriter.Write(b)
+	}
 	// Check if adding this data would exceed max buffer size
 	if g.buf.Len()+len(b) > MaxCompressionBufferSize {
-		// Mark as exceeded and fall back to streaming uncompressed
-		if !g.bufferExceeded {
-			g.bufferExceeded = true
-			// Flush existing buffer uncompressed
-			if g.buf.Len() > 0 {
-				_, _ = g.ResponseWriter.Write(g.buf.Bytes())
-				g.buf.Reset()
-			}
-		}
-		// Stream directly without compression
+		// Fall back to streaming uncompressed
+		g.passThrough()
 		return g.ResponseWriter.Write(b)
 	}
 	return g.buf.Write(b)
 }
 
+// Flush: a handler that flushes wants its bytes on the wire now (streaming), which a
+// buffered, compressed response cannot give: stop buffering and stream uncompressed
 func (g *gzipResponseWriter) Flush() {
+	g.passThrough()
 	if f, ok := g.ResponseWriter.(http.Flusher); ok {
 		f.Flush()
 	}
@@ -67,14 +98,25 @@ func (g *gzipResponseWriter) Flush() {
 
 func (g *gzipResponseWriter) Hijack() (net.Conn, *bufio.ReadWriter, error) {
 	if h, ok := g.ResponseWriter.(http.Hijacker); ok {
+		g.hijacked = true
 		return h.Hijack()
 	}
 	return nil, nil, fmt.Errorf("underlying ResponseWriter does not support hijacking")
 }
 
+// writePlain sends the buffered body as it is
+func (g *gzipResponseWriter) writePlain(body []byte) error {
+	g.commit()
+	if len(body) == 0 {
+		return nil
+	}
+	_, err := g.ResponseWriter.Write(body)
+	return err
+}
+
 func (g *gzipResponseWriter) Finish() error {
-	if !g.wroteHeader {
-		g.WriteHeader(http.StatusOK)
+	if g.hijacked {
+		return nil
 	}
 
 	// If buffer was exceeded, data was already streamed uncompressed
@@ -84,50 +126,56 @@ func (g *gzipResponseWriter) Finish() error {
 
 	body := g.buf.Bytes()
 
+	// Nothing to compress (HEAD-less empty bodies, 204, 304, redirects)
+	if len(body) == 0 {
+		return g.writePlain(body)
+	}
+
+	// Already encoded by the backend: never encode twice
+	if g.Header().Get("Content-Encoding") != "" {
+		return g.writePlain(body)
+	}
+
 	clHeader := g.Header().Get("Content-Length")
 	if clHeader != "" {
 		cl, err := strconv.Atoi(clHeader)
 		// if Content-Length header found and is less than the minSize then return the body as is.
 		if err == nil && cl < g.minSize {
-			_, err := g.ResponseWriter.Write(body)
-			return err
+			return g.writePlain(body)
 		}
 	}
 
 	// acts as a fallback when Content-Length is not available.
 	if len(body) < g.minSize {
-		_, err := g.ResponseWriter.Write(body)
-		return err
+		return g.writePlain(body)
 	}
 
 	// return body as is when Content-Type doesn't match specified in Config
 	ct := g.Header().Get("Content-Type")
 	if !matchesContentType(ct, g.contentTypes) {
-		_, err := g.ResponseWriter.Write(body)
-		return err
+		return g.writePlain(body)
+	}
+
+	// Compress into memory first so that the header can carry the final length
+	var compressed bytes.Buffer
+	gz, err := gzip.NewWriterLevel(&compressed, g.level)
+	if err != nil {
+		return g.writePlain(body)
+	}
+	if _, err := gz.Write(body); err != nil {
+		return g.writePlain(body)
+	}
+	if err := gz.Close(); err != nil {
+		return g.writePlain(body)
 	}
 
 	g.Header().Set("Content-Encoding", "gzip")
-	// Remove Content-Length since compressed size differs from original
-	g.Header().Del("Content-Length")
+	// Compressed size differs from the original
+	g.Header().Set("Content-Length", strconv.Itoa(compressed.Len()))
+	g.commit()
 
-	gz, err := gzip.NewWriterLevel(g.ResponseWriter, g.level)
-	if err != nil {
-		return err
-	}
-	defer func() {
-		if err := gz.Close(); err != nil {
-			// Log the error but don't fail the request
-			_ = err // Explicitly ignore
-		}
-	}()
-
-	_, err = gz.Write(body)
-	if err != nil {
-		return err
-	}
-
-	return gz.Close()
+	_, err = g.ResponseWriter.Write(compressed.Bytes())
+	return err
 }
 
 // matchesContentType checks if content type matches any allowed prefix
